@@ -277,6 +277,7 @@ inductive Effect where
       -- join/bind pattern: depend on `targets[arg mod k]`, drop the previously selected dependency
   | xStale (e : Opnd)
   | xInval (e : Opnd)
+  | dropVar (v : Nat)                    -- a closure drops a (clone of a) `Var` handle it owns
 deriving Repr, Inhabited
 
 /-- which incremental-map operator, with the id `m` of its user-function parameters -/
